@@ -202,6 +202,8 @@ def run(chk: Check):
                       import_coredefs=c["cl"].get("import_coredefs", False), tag=c["tag"])
         c1 = 0 if res["ok"] else EXC_CODE.get(res["exc"], 99)
         c2, same, equiv = 0, False, False
+        if res["exc"] == "HANG":         # a compile that does not terminate (worker watchdog)
+            chk.spec_failure("hang:" + str(res.get("hang") or "parse"), f"the compiler does not terminate on this closure: {res['msg'][:160]}", replay)
         if res["ok"]:
             # (a)
             det = res.get("det")
@@ -220,6 +222,8 @@ def run(chk: Check):
                 ndet_ok += 1
             # (b)
             rt = res.get("rt")
+            if res["compile_exc"] and res["compile_exc"].startswith("HANG"):
+                chk.spec_failure("hang:compile", "compile() of an accepted closure does not terminate: " + res["compile_exc"][:150], replay)
             if rt is None:
                 if not res["compile_exc"]:
                     chk.spec_failure("combined:not-produced", "no combined YAML was produced", replay)
@@ -231,7 +235,8 @@ def run(chk: Check):
             if not rt["ok"]:
                 c2 = EXC_CODE.get(rt["exc"], 99)
                 rt_stats["rejected"] += 1
-                key = K_ALIAS_STRUCT if (K_ALIAS_STRUCT in cs and "alias" in rt["msg"]) else \
+                key = "hang:reparse-combined" if rt["exc"] == "HANG" else \
+                    K_ALIAS_STRUCT if (K_ALIAS_STRUCT in cs and "alias" in rt["msg"]) else \
                     K_STRUCT_MSG if (K_STRUCT_MSG in cs and ("Unknown type" in rt["msg"] or "Unable to find definition" in rt["msg"])) else \
                     "combined:reparse-fails:" + str(rt["exc"])
                 chk.spec_failure(key, f"the combined YAML of an accepted closure is rejected: {rt['exc']}: {rt['msg'][:160]}", replay)
